@@ -125,7 +125,7 @@ CHECKS = {
              "items and well-formedness under normalisation for all token sequences up to length 3/4 and 4 flag combinations, and "
              "exports the token table and all item sequences up to length 2/3 with expected scalars. The harness instantiates them "
              "with concrete bytes at every offset relative to the 8-byte scanning window (5 encoder contexts, 10 decoder contexts, all "
-             "byte strings up to length 2/3) and compares go-json with the specification and with encoding/json.",
+             "byte strings up to length 2/3) and compares go-json with the specification and with encoding/json. The item catalogue includes the quote and the backslash spelled as \\u escapes.",
         note="trusted: TLC, StrCodec.tla (cross-checked with encoding/json on every decoder case; disagreement = exit 2), "
              "encoding/json's decoder as the conforming parser, utf8.DecodeRune as tokeniser.",
         technique="TLA+ token-level codec spec model-checked by TLC; TLC-exported token table and item-sequence cases instantiated at all window offsets",
@@ -138,7 +138,7 @@ CHECKS = {
              "applies them to every byte-class string up to length 3 (quick) / 5 (thorough) and to decorated generated texts, "
              "comparing the bytes appended by go-json's Compact/Indent (6 prefix/indent settings, empty and pre-filled "
              "destination) with the specification's; HTMLEscape is checked for value equivalence and absence of raw special "
-             "characters, Valid against the recogniser.",
+             "characters, Valid against the recogniser. Part D adds every string item of the catalogue (alone, before and after an escaped backslash) as value and member name in documents whose nesting deepens after the string.",
         note="trusted: TLC, JsonTransform.tla (compared with encoding/json's Compact/Indent on every call; a disagreement is exit 2). "
              "Known divergences are listed in known_findings.json with their extent in findings_extent/C18.json.",
         technique="TLA+ transducer spec model-checked by TLC; TLC-exported emission tables replayed into Compact/Indent/HTMLEscape/Valid",
@@ -151,7 +151,7 @@ CHECKS = {
              "point x destination combinations (Unmarshal*, Decoder incl. one-byte and failing readers, Token/More/Buffered, Valid, "
              "Compact, Indent, HTMLEscape, CreatePath, Path.Extract/Unmarshal/Get) in crash-isolating worker processes. Oracle: no "
              "recovered panic, no process death, no stall. TLC model-checks the window protocol (a refill always has room for its "
-             "sentinel) and the recogniser the inputs are drawn from.",
+             "sentinel) and the recogniser the inputs are drawn from. Part L places 14 token kinds at every offset around the stream buffer's 512/1024-byte boundaries, whole and cut there.",
         note="exploration: absence of crashes is observed on the enumerated inputs, not proved; trusted: Go runtime's panic/fatal "
              "reporting, 60 s stall detector. Indent on nestings deeper than 10^5 is skipped (quadratic time by design, as in encoding/json).",
         technique="TLA+-specified input space (JsonText) enumerated into all decoding/utility entry points under crash isolation",
@@ -164,7 +164,7 @@ CHECKS = {
              "actions, and FINDS the overwritten neighbour under the deviation PointerSizedZeroFill (the code before it was repaired). "
              "Every (layout, document) pair is realised with reflect.StructOf (3 Go types per kind), canary-filled and decoded with "
              "Unmarshal, Decoder and a truncated document: guards and un-named fields must be byte-identical, named fields equal "
-             "encoding/json's, all headers walkable; a sample runs again in a -d=checkptr build and the GC sweeps all results.",
+             "encoding/json's, all headers walkable; a sample runs again in a -d=checkptr build and the GC sweeps all results. Kinds q1..q8 (,string scalars) and t1..t4 (narrow TextUnmarshaler values) and the spare capacity of every destination slice are covered as well; two more named deviations (WideQuotedStore, PointerSizedNullStore) must be found by TLC.",
         note="exploration: memory safety is observed (canaries, walk, GC, checkptr), not proved; encoding/json defines the result inside the addressed set.",
         technique="TLA+ byte-map model of decoder stores (with a named deviation) checked by TLC; TLC-emitted layouts realised with canaries, checkptr build and GC sweeps",
         engine="MemLayout", design="8/C07"),
@@ -237,7 +237,7 @@ CHECKS = {
              "depends on its own query only and that the stored tree is never changed, and that the named deviation InPlaceFilter IS "
              "found. TLC emits every query of up to 2/3 paths with its JSON spelling and the expected projection of two values; each is "
              "replayed with MarshalContext / EncodeContext on fresh reflect-built types, rebuilt from its own QueryString, and used in "
-             "five-step histories for every interfering ordered pair of queries.",
+             "five-step histories for every interfering ordered pair of queries. The type has a member whose type is a context-aware marshaler forwarding its context; three non-existent names (one per nesting level) are part of the path universe.",
         note="trusted: TLC and FieldQuery.tla (unfiltered document cross-checked with encoding/json).",
         technique="TLA+ projection reference + cache state machine model-checked by TLC (with a named deviation); TLC-emitted queries and expected projections replayed in cold-cache histories",
         engine="FieldQuery", design="8/C19"),
@@ -248,7 +248,7 @@ CHECKS = {
              "trees rendered to JSON text, and longer paths enumerated at selector level. TLC enumerates every string up to length 5/6 "
              "over {$ . [ ] * ' \" 0 1 a b} and every sequence of up to 2/3 selectors from a 10-selector catalogue, checks balance "
              "properties, and exports membership and expected results for four documents. The harness replays them into CreatePath / "
-             "Extract / Path.Unmarshal and runs every 3-call history over 7 documents (3 failing) on one reused Path against fresh Paths.",
+             "Extract / Path.Unmarshal and runs every 3-call history over 7 documents (3 failing) on one reused Path against fresh Paths. Texts accepted outside the documented grammar are divergences classified by what is wrong with them; every document is also offered with the first character of each member name spelled as an escape.",
         note="trusted: TLC and PathEval.tla as the reference evaluation; strings CreatePath accepts outside the reference language are "
              "only checked for purity; an empty reference selection may be reported as an error.",
         technique="TLA+ path grammar + reference evaluator; TLC-enumerated paths with expected selections replayed into the library; reuse histories against fresh objects",
